@@ -3,6 +3,7 @@ package rules
 import (
 	"fmt"
 	"go/ast"
+	"go/token"
 	"go/types"
 	"os"
 	"path/filepath"
@@ -111,6 +112,13 @@ func placements(root *types.Named, typ, field string) []string {
 	rec(root, "", 0)
 	sort.Strings(out)
 	return out
+}
+
+func v0name(v ssa.Value) string {
+	if _, ok := v.(*ssa.Const); ok {
+		return "const"
+	}
+	return "result"
 }
 
 func runC06(c *Ctx) {
@@ -295,6 +303,65 @@ func runC06(c *Ctx) {
 							return false
 						}})
 					r.Check("C06.3", "every-device:"+v+":"+fname, !esc, c.pos(ins[0]), fmt.Sprintf("%s looks at %s of every device (no iteration of the device loop can finish without it)", c.U.RelName(p), fname))
+				}
+			}
+		}
+		// leaving a loop before its last element is only right with the verdict "required":
+		// for every edge out of a loop body that is not the loop's own exit, what is returned
+		// from there is true - the constant, or a result variable that was set to true in
+		// the iteration that is being left
+		for _, l := range ir.Loops(p) {
+			body := l.BodyBlocks()
+			for b := range body {
+				if b == l.Header {
+					continue
+				}
+				for k, succ := range b.Succs {
+					if body[succ] || succ == l.Header {
+						continue
+					}
+					e := ir.Edge{From: b, Succ: k}
+					for _, ret := range ir.NormalReturns(p) {
+						if !ir.CanReach(p, ir.PathQuery{FromEdge: &e, To: ret}) {
+							continue
+						}
+						v := ret.Results[0]
+						if phi, isPhi := v.(*ssa.Phi); isPhi && phi.Block() == succ {
+							for j, pr := range succ.Preds {
+								if pr == b {
+									v = phi.Edges[j]
+								}
+							}
+						}
+						key := "early-exit-verdict:" + v0name(v) + ":" + c.pos(b.Instrs[len(b.Instrs)-1])
+						if cb, isConst := ir.ConstBool(v); isConst {
+							if !cb {
+								r.Violation("C06.3", key, c.pos(ret), c.U.RelName(p)+" leaves the loop over "+c.valueDesc(l.Over)+" early with the verdict false: elements after the first non-matching one are not examined")
+							}
+							continue
+						}
+						ld, isLoad := v.(*ssa.UnOp)
+						if !isLoad || ld.Op != token.MUL {
+							continue
+						}
+						cell, isCell := ld.X.(*ssa.Alloc)
+						if !isCell {
+							continue
+						}
+						setTrue := func(x ssa.Instruction) bool {
+							st, ok := x.(*ssa.Store)
+							if !ok || st.Addr != ssa.Value(cell) {
+								return false
+							}
+							tv, isConst := ir.ConstBool(st.Val)
+							return isConst && tv
+						}
+						be := l.Body
+						last := b.Instrs[len(b.Instrs)-1]
+						unset := ir.CanReach(p, ir.PathQuery{FromEdge: &be, To: last, Stop: func(x ssa.Instruction) bool { return setTrue(x) || (x.Block() == l.Header && x != last) }}) &&
+							ir.CanReach(p, ir.PathQuery{FromEdge: &e, To: ret, Stop: setTrue})
+						r.Check("C06.3", key, !unset, c.pos(last), c.U.RelName(p)+" leaves the loop over "+c.valueDesc(l.Over)+" before its last element only after setting its result to true in that iteration (otherwise the elements after it are never examined and the verdict is false)")
+					}
 				}
 			}
 		}
